@@ -1,6 +1,7 @@
 package main
 
 import (
+	"context"
 	"fmt"
 	"sort"
 	"strings"
@@ -10,6 +11,7 @@ import (
 	"verifharness/qlog"
 
 	"github.com/boz/kcache"
+	"github.com/boz/kcache/filter"
 	metav1 "k8s.io/apimachinery/pkg/apis/meta/v1"
 )
 
@@ -83,8 +85,64 @@ func goObjs(os []*Obj) []metav1.Object {
 	return r
 }
 
-// apply runs one operation on the real cache core.
-func apply(vc *kcache.VerifCache, op cop) (obs cobs) {
+// cacheDriver is either the sequential core or the cache goroutine.
+type cacheDriver interface {
+	Sync(list []metav1.Object) []kcache.Event
+	Update(evt kcache.Event) []kcache.Event
+	Refilter(list []metav1.Object, f filter.Filter) []kcache.Event
+	List() []metav1.Object
+}
+
+// actorDriver drives the real cache goroutine through its request channels.
+type actorDriver struct {
+	a      *kcache.VerifCacheActor
+	cancel context.CancelFunc
+}
+
+func newActorDriver(f filter.Filter) *actorDriver {
+	ctx, cancel := context.WithCancel(context.Background())
+	return &actorDriver{kcache.NewVerifCacheActor(ctx, qlog.Silent(), nil, f), cancel}
+}
+
+func (d *actorDriver) Sync(list []metav1.Object) []kcache.Event {
+	evs, err := d.a.Sync(list)
+	if err != nil {
+		panic(err)
+	}
+	return evs
+}
+func (d *actorDriver) Update(evt kcache.Event) []kcache.Event {
+	evs, err := d.a.Update(evt)
+	if err != nil {
+		panic(err)
+	}
+	return evs
+}
+func (d *actorDriver) Refilter(list []metav1.Object, f filter.Filter) []kcache.Event {
+	evs, err := d.a.Refilter(list, f)
+	if err != nil {
+		panic(err)
+	}
+	return evs
+}
+func (d *actorDriver) List() []metav1.Object {
+	l, err := d.a.Reader().List()
+	if err != nil {
+		panic(err)
+	}
+	// Get must agree with List
+	for _, o := range l {
+		g, err := d.a.Reader().Get(o.GetNamespace(), o.GetName())
+		if err != nil || g != o {
+			panic("Get disagrees with List")
+		}
+	}
+	return l
+}
+func (d *actorDriver) close() { d.cancel(); <-d.a.Done() }
+
+// apply runs one operation on the real cache.
+func apply(vc cacheDriver, op cop) (obs cobs) {
 	defer func() {
 		if r := recover(); r != nil {
 			obs = cobs{panicked: true}
@@ -128,12 +186,46 @@ func replayPath(init *Filt, path []cop) (*kcache.VerifCache, []cobs) {
 	return vc, obs
 }
 
+// replayPathActor runs the same path through the cache goroutine.  A panic
+// inside the goroutine would kill the process, so callers use it only on
+// paths the sequential core survived.
+func replayPathActor(init *Filt, path []cop) []cobs {
+	d := newActorDriver(init.Go())
+	defer d.close()
+	obs := make([]cobs, len(path))
+	for i, op := range path {
+		obs[i] = apply(d, op)
+	}
+	return obs
+}
+
+func emitPath(c *Ctx, f *Filt, path []cop, obs []cobs) {
+	ops := make([]enc.T, 0, len(path))
+	for i, op := range path {
+		ops = append(ops, op.enc(obs[i]))
+		c.Rep.Evaluations++
+		if obs[i].panicked {
+			break
+		}
+	}
+	c.Case(enc.L(enc.I(3), f.Enc(), enc.L(ops...), enc.L()))
+}
+
+func anyPanic(obs []cobs) bool {
+	for _, o := range obs {
+		if o.panicked {
+			return true
+		}
+	}
+	return false
+}
+
 func runCache(c *Ctx) {
 	// corpus first: the witnesses of defects D1 and D2 (fixed in /repo)
 	cacheCorpus(c)
 	cacheBFS(c)
 	cacheWalks(c)
-	c.Rep.Rule = "cache core (doSync/doUpdate/doRefilter/doList through the verif export, no goroutine): BFS over every state reachable in a universe of 2 keys x 6 resource versions (0,1,2,3,x,empty; thorough adds -1,+3,007,2^63) x 2 label sets x 4 filters (Null, Labels, NSName, FN); from every reachable state every update event and every list of length <=2 (duplicates and malformed versions included) and every refilter; plus seeded random walks over 8 keys x 50 versions x 3 label sets with composite filters. Per operation: content and events vs the extracted model, and the extracted replay oracle on the implementation's own events. Non-trivial = operation that changes the content or emits an event; distinct by (state, operation)."
+	c.Rep.Rule = "cache core (doSync/doUpdate/doRefilter/doList through the verif export, and every corpus case and random walk again through the real cache goroutine's request channels with List/Get): BFS over every state reachable in a universe of 2 keys x 6 resource versions (0,1,2,3,x,empty; thorough adds -1,+3,007,2^63) x 2 label sets x 4 filters (Null, Labels, NSName, FN); from every reachable state every update event and every list of length <=2 (duplicates and malformed versions included) and every refilter; plus seeded random walks over 8 keys x 50 versions x 3 label sets with composite filters. Per operation: content and events vs the extracted model, and the extracted replay oracle on the implementation's own events. Non-trivial = operation that changes the content or emits an event; distinct by (state, operation)."
 }
 
 func cacheFamily() []*Filt {
@@ -188,13 +280,12 @@ func cacheCorpus(c *Ctx) {
 	}
 	for _, cs := range cases {
 		_, obs := replayPath(cs.f, cs.path)
-		ops := make([]enc.T, len(cs.path))
-		for i, op := range cs.path {
-			ops[i] = op.enc(obs[i])
-		}
 		c.Out.WriteString("# corpus " + cs.name + "\n")
-		c.Case(enc.L(enc.I(3), cs.f.Enc(), enc.L(ops...), enc.L()))
-		c.Rep.Evaluations += len(cs.path)
+		emitPath(c, cs.f, cs.path, obs)
+		if !anyPanic(obs) {
+			c.Out.WriteString("# corpus (cache goroutine) " + cs.name + "\n")
+			emitPath(c, cs.f, cs.path, replayPathActor(cs.f, cs.path))
+		}
 		c.Stat("corpus", 1)
 	}
 }
@@ -340,6 +431,9 @@ func cacheWalks(c *Ctx) {
 				kinds["update"]++
 			case r < 9:
 				k := c.Rng.Intn(7)
+				if c.Rng.Intn(6) == 0 {
+					k = 0 // an empty list: everything must go
+				}
 				var l []*Obj
 				for i := 0; i < k; i++ {
 					l = append(l, mkobj())
@@ -369,6 +463,11 @@ func cacheWalks(c *Ctx) {
 			}
 		}
 		c.Case(enc.L(enc.I(3), f0.Enc(), enc.L(ops...), enc.L()))
+		// the same walk through the cache goroutine (request channels, List/Get)
+		if !anyPanic(obs) {
+			emitPath(c, f0, path, replayPathActor(f0, path))
+			c.Stat("walks_through_actor", 1)
+		}
 		if w == 0 {
 			c.Sample(map[string]interface{}{"walk": strings.Join([]string{f0.Enc().String(), ops[0].String(), ops[1].String()}, " ; ") + " ..."})
 		}
